@@ -126,11 +126,16 @@ var Axes = []C3{
 }
 
 // Shapes3 is the primitive alphabet. full adds more parameter combinations.
-func Shapes3(full bool) []Shape3 {
+func Shapes3(full bool) []Shape3 { return Shapes3Scaled(full, 1) }
+
+// Shapes3Scaled is the same alphabet with every length (centres, radii, lengths, box sizes) multiplied by k.
+// With k a power of two the scaled shapes are exact images of the unit-scale ones, so any difference in
+// behaviour comes from absolute thresholds in the code under test.
+func Shapes3Scaled(full bool, k float64) []Shape3 {
 	var out []Shape3
-	centers := []C3{{}, {X: 1, Y: -2, Z: 0.5}}
-	radii := []float64{0.5, 2}
-	lengths := []float64{0.6, 3}
+	centers := []C3{{}, C3{X: 1, Y: -2, Z: 0.5}.Scale(k)}
+	radii := []float64{0.5 * k, 2 * k}
+	lengths := []float64{0.6 * k, 3 * k}
 	axes := Axes
 	if !full {
 		centers = centers[1:]
@@ -140,8 +145,8 @@ func Shapes3(full bool) []Shape3 {
 		for _, r := range radii {
 			out = append(out, Sphere(c, r))
 		}
-		out = append(out, Rect(c.Sub(C3{X: 1, Y: 0.5, Z: 2}), c.Add(C3{X: 0.5, Y: 1.5, Z: 0.25})))
-		out = append(out, Rect(c, c.Add(C3{X: 3, Y: 0.1, Z: 1})))
+		out = append(out, Rect(c.Sub(C3{X: 1, Y: 0.5, Z: 2}.Scale(k)), c.Add(C3{X: 0.5, Y: 1.5, Z: 0.25}.Scale(k))))
+		out = append(out, Rect(c, c.Add(C3{X: 3, Y: 0.1, Z: 1}.Scale(k))))
 		for _, ax := range axes {
 			for _, r := range radii {
 				for _, l := range lengths {
@@ -149,7 +154,12 @@ func Shapes3(full bool) []Shape3 {
 					out = append(out, Capsule(c, p2, r), Cylinder(c, p2, r), Cone(c, p2, r))
 				}
 			}
-			out = append(out, Torus(c, ax, 0.3, 1.2), Torus(c, ax.Scale(2.5), 0.9, 1))
+			out = append(out, Torus(c, ax, 0.3*k, 1.2*k), Torus(c, ax.Scale(2.5), 0.9*k, 1*k))
+		}
+	}
+	if k != 1 {
+		for i := range out {
+			out[i].Name += fmt.Sprintf("@x%g", k)
 		}
 	}
 	return out
